@@ -3,9 +3,10 @@ proof: coq/Props/C07.v over the client LTS (coq/Client/Model.v, InvAck.v, C07Pro
 tie: scripts on the real Client vs the extracted model (keep-alives with ids 0 / colliding / 2^32-1 while k
 requests are outstanding, during negotiation, in bursts of 5/6/7 with the peer not reading); the property is
 evaluated on Go's frames: KeepAliveAck ids vs keep-alive ids, in order."""
-import json, random
+import json, os, random
 import vlib
 import client_common as cc
+import client_walk as cw
 
 PID = "C07"
 REQ_TYPES = [1, 2, 3, 20, 21, 22, 23, 24, 25, 26, 40, 41, 42, 43, 44, 45, 60, 64, 1023]
@@ -303,6 +304,45 @@ def driver_requests(seed, thorough):
         dict(id="drv-keeping-up", cap=1, consumer="keeping-up",
              traffic=[dict(k="report", n=10, payload="tags"), dict(k="ka", id=1), dict(k="event", n=5), dict(k="ka", id=2)]),
     ]
+    # the connection comes up while EdgeX has the device recorded as DOWN: onConnect's SDK call (UpdateDeviceOperatingState) is
+    # slow / fails / hangs while reports, events and keep-alives arrive (traffic_c: after negotiation, before SetReaderConfig)
+    kinds = ["hopping", "gpi", "rospec", "buflevel", "bufover", "exception", "rfsurvey", "aispec", "antenna", "connfail", "connok",
+             "connclose", "specloop", "none"]
+
+    def evka(ks, start):
+        tr = []
+        for j, kd in enumerate(ks):
+            tr.append(dict(k="event", kind=kd, uptime=(rnd.random() < 0.3)))
+            tr.append(dict(k="ka", id=start + j))
+        return tr
+    out += [
+        dict(id="drv-down-sdk-hang", cap=4, consumer="keeping-up", op_state="down", sdk="hang", limit_ms=1000,
+             traffic_c=[dict(k="ka", id=1), dict(k="report", n=1, payload="tags"), dict(k="ka", id=2), dict(k="event", kind="gpi"), dict(k="ka", id=3)],
+             traffic=[dict(k="ka", id=9)]),
+        dict(id="drv-down-sdk-fail", cap=1, consumer="stalled", op_state="down", sdk="fail", negotiate="two-step",
+             traffic_c=[dict(k="report", n=3, payload="tags"), dict(k="ka", id=1), dict(k="event", kind="antenna"), dict(k="ka", id=2)],
+             traffic=[dict(k="ka", id=9)]),
+        dict(id="drv-down-sdk-slow", cap=4, consumer="slow", op_state="down", sdk="slow", limit_ms=2000,
+             traffic_c=[dict(k="event", kind="rospec"), dict(k="ka", id=1), dict(k="report", n=2, payload="empty"), dict(k="ka", id=2)],
+             traffic=[dict(k="ka", id=9)]),
+    ]
+    # every kind of reader event — before the reply to GetSupportedVersion, before the reply to SetProtocolVersion, before the
+    # device's SetReaderConfig, after set-up — each followed by a keep-alive
+    ks = list(kinds)
+    rnd.shuffle(ks)
+    out += [
+        dict(id="drv-events-before-gsvr", cap=64, consumer="keeping-up", limit_ms=1000, traffic_a=evka(ks[:7], 100), traffic=[dict(k="ka", id=9)]),
+        dict(id="drv-events-negotiating", cap=64, consumer="keeping-up", negotiate="two-step", limit_ms=1000,
+             traffic_a=evka(ks[7:10], 200), traffic_b=evka(ks[10:] + ks[:3], 300), traffic_c=evka(ks[3:7], 400), traffic=[dict(k="ka", id=9)]),
+        dict(id="drv-events-established", cap=2, consumer="stalled", traffic=evka(kinds, 500)),
+    ]
+    if thorough:
+        for j in range(4):
+            rnd.shuffle(ks)
+            out.append(dict(id="drv-events-rnd-%d" % j, cap=rnd.choice([0, 1, 64]), consumer=rnd.choice(["stalled", "keeping-up"]),
+                            negotiate=rnd.choice(["direct", "two-step"]), op_state=rnd.choice(["up", "down"]), sdk=rnd.choice(["", "fail", "slow"]),
+                            limit_ms=1000, traffic_a=evka(ks[:4], 100), traffic_b=evka(ks[4:8], 200), traffic_c=evka(ks[8:11], 300),
+                            traffic=evka(ks[11:], 400)))
     for i in range(12 if thorough else 3):
         tr, kid = [], rnd.randrange(1, 1 << 31)
         for _ in range(rnd.randrange(3, 9)):
@@ -322,18 +362,24 @@ def driver_requests(seed, thorough):
 
 def judge_driver(rq, o):
     """C07 on what the scripted reader saw: every keep-alive (at most 4 earlier ones unacknowledged) acknowledged exactly
-    once with its id, no other acknowledgement. returns (violations, harness problem or None)"""
+    once with its id — in time —, no other acknowledgement. returns (violations, harness problem or None)"""
+    if o is not None and o.get("payload_ok") and o.get("setup") != "ok" and any(k.get("late") for k in (o.get("kas") or [])):
+        o = dict(o, setup="ok")      # the set-up stopped BECAUSE a keep-alive sent during it was not acknowledged: judged below
     if o is None or o.get("setup") != "ok" or not o.get("payload_ok"):
         return [], "scenario %s did not get going: %s" % (rq["id"], o)
+    phases = dict(a="before the reply to GetSupportedVersion", b="before the reply to SetProtocolVersion",
+                  c="after negotiation, before the device's SetReaderConfig", main="on the established connection")
     bad = []
     for k in o.get("kas") or []:
-        if k["acks"] == 0 and k["pending_before"] <= 4:
+        if (k["acks"] == 0 or k.get("late")) and k["pending_before"] <= 4:
             bad.append(("driver-keepalive-not-acked",
-                        "device service (a real LLRPDevice from Driver.NewLLRPDevice, consumer of the asynchronous-values channel %s, "
-                        "channel capacity %d): keep-alive id %d — sent after %d tag report(s) / %d reader event(s), %d earlier keep-alive(s) "
-                        "unacknowledged — was not acknowledged within %d ms although the reader keeps reading: acknowledgement waits for "
-                        "the application's traffic" % (rq["consumer"], rq["cap"], k["id"], o.get("sent_reports", 0), o.get("sent_events", 0),
-                                                       k["pending_before"], k["ms"])))
+                        "device service (a real LLRPDevice from Driver.NewLLRPDevice, device recorded %s, SDK call %s, consumer of the "
+                        "asynchronous-values channel %s, capacity %d): keep-alive id %d sent %s — after %d tag report(s) / %d reader "
+                        "event(s), %d earlier keep-alive(s) unacknowledged — was not acknowledged within %d ms although the reader keeps "
+                        "reading: acknowledgement waits for the application" % (
+                            rq.get("op_state", "up"), rq.get("sdk") or "fast", rq["consumer"], rq["cap"], k["id"],
+                            phases.get(k.get("phase"), "?"), o.get("sent_reports", 0), o.get("sent_events", 0), k["pending_before"], k["ms"])))
+            break
         elif k["acks"] > 1:
             bad.append(("driver-keepalive-acked-twice", "device service: keep-alive id %d was acknowledged %d times" % (k["id"], k["acks"])))
     if o.get("stray_acks"):
@@ -385,6 +431,56 @@ def driver_part(res, seed, thorough, reported, only=None):
     return len(reqs), n_ka
 
 
+def nowait_cancel_script(rnd, sid):
+    """"all concurrent sender activity" includes fire-and-forget senders that give up at any moment: a SendNoWait whose
+    message the write loop has accepted but not finished writing (the peer is slow to take the bytes) — or which is still
+    queued — is cancelled; keep-alives arrive before and after; every one must still be acknowledged once the peer reads.
+    Compared with the model (there a SendNoWait caller is done as soon as its message is accepted) and judged by pred_c07."""
+    version = rnd.choice([1, 2])
+    b = cc.SB(sid, version=version)
+    b.connect(cur=rnd.choice([1, 2]), mx=2)
+    tag = rnd.randrange(1, 1 << 20) * 64
+    c = 0
+    if rnd.random() < 0.5:
+        c += 1
+        b.send(c, rnd.choice(REQ_TYPES), 4, tag + c)             # an ordinary request outstanding
+    kid = rnd.randrange(1, 1 << 30)
+    for _ in range(rnd.randrange(1, 4)):
+        c += 1
+        held = c
+        b.send(held, rnd.choice(REQ_TYPES), rnd.choice([0, 8, 300, 70000]), tag + c, expect=False, api="SendNoWait", ver=1)
+        queued = None
+        if rnd.random() < 0.4:                                   # a second one queued behind it
+            c += 1
+            queued = c
+            b.send(queued, rnd.choice(REQ_TYPES), 6, tag + c, expect=False, api="SendNoWait", ver=1)
+        if rnd.random() < 0.5:
+            kid += 1
+            b.keepalive(kid)
+            ka_first = True
+        else:
+            ka_first = False
+        b.cancel(held)                                           # accepted, write not finished
+        if queued is not None and rnd.random() < 0.5:
+            b.cancel(queued)                                     # still queued: never written
+            queued = None
+        kid += 1
+        b.keepalive(kid)
+        b.expect()                                               # the held message
+        for _ in range(2 if ka_first else 1):
+            b.expect()                                           # acknowledgement(s): before any queued message
+        if queued is not None:
+            b.expect()
+        kid += 1
+        b.keepalive(kid)
+        b.expect()
+    b.op("drain")
+    b.op("state")
+    sc = b.script()
+    sc["family"] = "nowait-cancel"
+    return sc
+
+
 def class_scripts(seed, thorough):
     rnd = random.Random(seed + 29)
     out = []
@@ -424,17 +520,24 @@ def run(tier, seed, replay=None):
         res.violation("build", err, dict(kind="build"), False)
         return res.finish()
     thorough = tier == "thorough"
+    walks_only = os.environ.get("VERIF_WALKS_ONLY") == "1"     # debug switch: the hand-written families are skipped
     rp_data = {}
     scripts_pred = []
+    walk_scripts = []
     if replay:
         rp_data = json.load(open(replay))
         scripts = [rp_data["script"]] if "script" in rp_data else []
         if scripts and scripts[0].get("family") in ("splitcancel", "timed"):
             scripts_pred, scripts = scripts, []
+        elif scripts and scripts[0].get("family") == "walk":
+            walk_scripts, scripts = scripts, []
+    elif walks_only:
+        scripts = []
     else:
         rb = random.Random(seed + 41)
         scripts = (class_scripts(seed, thorough) + gen_scripts(seed, 3000 if thorough else 500)
-                   + [cc.coalesced_script(rb, "c07-coalesced-%d" % i, "ka") for i in range(400 if thorough else 60)])
+                   + [cc.coalesced_script(rb, "c07-coalesced-%d" % i, "ka") for i in range(400 if thorough else 60)]
+                   + [nowait_cancel_script(rb, "c07-nowaitcancel-%d" % i) for i in range(200 if thorough else 30)])
     def view_of(sc, g):
         v = cc.go_view(sc, g)
         v["order"], v["drained"] = cc.c07_order(sc, g)
@@ -489,7 +592,7 @@ def run(tier, seed, replay=None):
     pred_only = []
     if replay and scripts_pred:
         pred_only = scripts_pred
-    elif not replay:
+    elif not replay and not walks_only:
         rg = random.Random(seed + 13)
         pred_only = ([splitcancel_script(rg, "c07-splitcancel-%d" % i) for i in range(150 if thorough else 30)]
                      + [timed_script(rg, "c07-timed-%d" % i) for i in range(6 if thorough else 2)])
@@ -529,6 +632,20 @@ def run(tier, seed, replay=None):
                 reported.add(sig)
                 res.violation(sig, "%s [script %s]" % (text, s["id"]), dict(kind="script", script=s, theorem="C07_*"))
 
+    # model-based random walks (checks/client_walk.py)
+    walk_ev = None
+    if not replay:
+        walk_scripts, wstats, wcalls = cw.walks(seed + 101, 6000 if thorough else 400, cw.WEIGHTS[PID], prefix="c07-walk")
+        walk_ev = cw.evidence(wstats, walk_scripts, wcalls)
+    if walk_scripts:
+        winfo = cw.run_walks(res, PID, exe, walk_scripts, ["c07"], reported=reported)
+        evals += winfo.get("evals", 0)
+        dist["walk"] = len(walk_scripts)
+        for s_ in walk_scripts:
+            nontriv.add((s_["id"], len(s_["steps"])))
+        if walk_ev is not None:
+            walk_ev.update(disagreeing=winfo.get("disagreeing"), failing_predicate=winfo.get("failing"), model_variant=str(winfo.get("variant")))
+
     stress = []
     if replay and "stress" in rp_data:
         stress = [rp_data["stress"]]
@@ -539,7 +656,7 @@ def run(tier, seed, replay=None):
                 if sig not in reported:
                     reported.add(sig)
                     res.violation(sig, "%s [stress %s]" % (text, rq.get("id")), dict(kind="stress", stress=rq))
-    if not replay:
+    if not replay and not walks_only:
         rnd = random.Random(seed + 7)
         for i in range(8 if thorough else 3):
             stress.append(dict(id="st%d" % i, seed=rnd.randrange(1 << 30), callers=rnd.choice([8, 32]), per_caller=30 if thorough else 12,
@@ -559,12 +676,13 @@ def run(tier, seed, replay=None):
                     reported.add(sig)
                     res.violation(sig, "%s [stress %s]" % (text, rq["id"]), dict(kind="stress", stress=rq, theorem="C07_*"))
     n_drv = n_drv_ka = 0
-    if not replay or "driver_scenario" in rp_data:
+    if (not replay and not walks_only) or "driver_scenario" in rp_data:
         n_drv, n_drv_ka = driver_part(res, seed, thorough, reported, only=[rp_data["driver_scenario"]] if replay else None)
         evals += n_drv
         n_ka += n_drv_ka
         dist["device-service"] = n_drv
     res.coverage.update(
+        walks=walk_ev,
         driver_scenarios=dict(run=n_drv, keepalives=n_drv_ka),
         evaluations=evals, distinct_nontrivial=len(nontriv), keepalives_sent=n_ka, acks_seen=n_ack, not_acked_backlog=n_drop,
         rule="a case is one script / stress run; non-trivial iff at least one keep-alive reached the client; "
